@@ -2,6 +2,7 @@ package pipeline
 
 import (
 	"bytes"
+	"encoding/binary"
 	"encoding/json"
 	"fmt"
 	"os"
@@ -334,12 +335,46 @@ type FuzzResult struct {
 
 var execsRe = regexp.MustCompile(`execs: (\d+)`)
 
+var failingInputRe = regexp.MustCompile(`(?m)Failing input written to testdata/fuzz/FuzzCase/(\S+)|(?:--- FAIL: |seed corpus entry: )FuzzCase/(\S+)`)
+
+func tailLines(s string, n int) string {
+	l := strings.Split(strings.TrimRight(s, "\n"), "\n")
+	if len(l) > n {
+		l = l[len(l)-n:]
+	}
+	return strings.Join(l, "\n")
+}
+
 // FuzzCase runs `go test -fuzz` (all cores) on the case for the given duration. With corpusOnly it only
 // re-runs the saved corpus entries (deterministic replay of a crasher).
 func (t *Tools) FuzzCase(c *Case, specPath, fuzzOut string, fuzztime time.Duration, corpusOnly bool) (*FuzzResult, error) {
 	args := []string{"test", "-vet=off", "-count=1", "-run", "^FuzzCase$", "."}
 	if !corpusOnly {
 		args = []string{"test", "-vet=off", "-run", "^$", "-fuzz", "^FuzzCase$", "-fuzztime", fuzztime.String(), "."}
+	}
+	corpus := filepath.Join(c.Dir, "testdata", "fuzz", "FuzzCase")
+	if !corpusOnly {
+		// Long pseudo-random seeds (fixed, from splitmix64), 8-64 KB: the byte input is rapid's stream of 64-bit
+		// draws and one case of a rich schema takes several thousand of them (a stream that runs out is skipped),
+		// so these start the campaign from cases like the ones the rapid search draws instead of from zero values.
+		if err := os.MkdirAll(corpus, 0o755); err != nil {
+			return nil, Infra("fuzz corpus: %v", err)
+		}
+		x := uint64(0x9e3779b97f4a7c15)
+		for i := 0; i < 16; i++ {
+			b := make([]byte, 8192<<(i%4))
+			for j := 0; j+8 <= len(b); j += 8 {
+				x += 0x9e3779b97f4a7c15
+				z := x
+				z = (z ^ (z >> 30)) * 0xbf58476d1ce4e5b9
+				z = (z ^ (z >> 27)) * 0x94d049bb133111eb
+				z ^= z >> 31
+				binary.LittleEndian.PutUint64(b[j:], z)
+			}
+			if err := os.WriteFile(filepath.Join(corpus, fmt.Sprintf("seed-%02d", i)), []byte(fmt.Sprintf("go test fuzz v1\n[]byte(%q)\n", b)), 0o644); err != nil {
+				return nil, Infra("fuzz corpus: %v", err)
+			}
+		}
 	}
 	cmd := exec.Command("go", args...)
 	cmd.Dir = c.Dir
@@ -369,8 +404,25 @@ func (t *Tools) FuzzCase(c *Case, specPath, fuzzOut string, fuzztime time.Durati
 			r.Execs = n
 		}
 	}
-	files, _ := filepath.Glob(filepath.Join(c.Dir, "testdata", "fuzz", "FuzzCase", "*"))
-	sort.Strings(files)
-	r.Crashers = files
+	if r.Failed {
+		// the failing input: a new file the fuzzer wrote, or an entry of the corpus
+		for _, m := range failingInputRe.FindAllStringSubmatch(r.Output, -1) {
+			name := m[1]
+			if name == "" {
+				name = m[2]
+			}
+			f := filepath.Join(corpus, name)
+			if _, err := os.Stat(f); err == nil {
+				r.Crashers = append(r.Crashers, f)
+			}
+		}
+		if len(r.Crashers) == 0 && !corpusOnly {
+			head := r.Output
+			if len(head) > 600 {
+				head = head[:600]
+			}
+			return r, Infra("go test -fuzz failed without naming a failing input:\n%s\n[...]\n%s", head, tailLines(r.Output, 8))
+		}
+	}
 	return r, nil
 }
